@@ -13,4 +13,4 @@ reg(Check(
     modelled=["coalesce/coalesce.go: NewQueue, Insert, insert, Next, next, Len, Close, IsClosed (as a transition system whose atomic steps are the critical sections and channel operations)"],
 ),
     level_text="Theorems in coq/Props/C11.v state the property over a transition system of coalesce.Queue for all schedules of any number of producers, one consumer, Close and cancellation (refinement to an abstract coalescing queue, conservation, drain-before-closed, refusal after close, no lost wake-up as enabledness, and delivery / wake-up by Close and Cancel / drain-then-closed on weakly fair runs, with a refutation for an unbuffered wake-up channel); the model is tied to coalesce/coalesce.go by (E) all short single-goroutine operation sequences + random ones, (S) forced schedules through the verif hook points under a barrier scheduler, every recorded step validated against the transition system inside Coq, and a stress family, with the abstract-queue specification applied to the implementation's own observations.",
-    level_note="Trusted: Coq kernel + vm_compute, the hand-written model (validated on the explored sequences and schedules), the Go harness and its barrier scheduler (goroutine states read from runtime.Stack). One consumer; liveness under weak fairness; uint32 wrap ignored.")
+    level_note="Trusted: Coq kernel + vm_compute, the hand-written model (validated on the explored sequences and schedules), the Go harness and its barrier scheduler (goroutine states read from runtime.Stack). One consumer; liveness under weak fairness; uint32 wrap ignored. Since round 7 the wake-up, refusal and drain clauses of the mode-S K_P have soundness theorems against declarative statements over recorded runs (C11_kp_*_sound), tied to the LTS by shared point predicates and, for refusal (full) and drain/wake (partial), by a trace-abstraction theorem from validate_run.")
